@@ -397,10 +397,11 @@ theorem holdsC_expire {s : Server} {o : Option ZNode} (hp : Par lock parents)
   · rw [hf']; simp [Option.filter, hown, hne]
   · simp [Server.expire, hl, hne]
 
-/-- guarded session expiry -/
+/-- guarded session expiry (`expire`: no operation in flight; `expireAcq`: possibly an AcquireLock in flight — all that
+matters is that the client is not at the `delete` of a ReleaseLock, the one program point that needs the session) -/
 theorem inv_expire {σ : Sys} {i : Nat} {c : Client}
     (hp : Par lock parents) (h : Inv ids lock parents σ) (hi : σ.clients[i]? = some c)
-    (hcache : c.cache = none) (hprog : c.prog = none) :
+    (hcache : c.cache = none) (hprog : c.prog = none ∨ c.acquiring = true) :
     Inv ids lock parents { σ with srv := σ.srv.expire c.sid } := by
   have hc := h.core
   have hpos := (hc.sid_pos i c hi).1
@@ -426,7 +427,12 @@ theorem inv_expire {σ : Sys} {i : Nat} {c : Client}
     by_cases hji : j = i
     · subst hji
       rw [hi] at hj; cases hj
-      exact ⟨fun hne => absurd hcache hne, Or.inl (Or.inl hprog)⟩
+      refine ⟨fun hne => absurd hcache hne, ?_⟩
+      rcases (h.ok _ _ hi).2 with h2 | ⟨m, ver, h2, hacq, _⟩
+      · exact Or.inl h2
+      · rcases hprog with hprog | hprog
+        · rw [hprog] at h2; cases h2
+        · rw [hacq] at hprog; cases hprog
     · refine (h.ok j cj hj).mono (fun hh => holdsC_expire hp hc.nodes hpos hh (fun e => hji ?_))
       exact hc.sid_inj _ _ _ _ hj hi e
 
@@ -581,6 +587,16 @@ theorem inv_step {σ : Sys} (hp : Par lock parents) (hn : ids.Nodup) (h : Inv id
       split
       · next hgd =>
         simp only [Bool.and_eq_true, Option.isNone_iff_eq_none] at hgd
+        exact inv_expire hp h hi hgd.1 (Or.inl hgd.2)
+      · exact h
+    · exact h
+  | expireAcq i =>
+    simp only [step]
+    split
+    · next c hi =>
+      split
+      · next hgd =>
+        simp only [Bool.and_eq_true, Bool.or_eq_true, Option.isNone_iff_eq_none] at hgd
         exact inv_expire hp h hi hgd.1 hgd.2
       · exact h
     · exact h
